@@ -412,6 +412,16 @@ def emit(facts, rep, rules, floors):
             elif ok is False: rep.violation(r, inst, site, why, key=f'{r}|{site}|{why[:60]}', fn=TP)
             else: rep.inconclusive(r, inst, site, why)
         if all(ok is True for ok, _, _ in seen): rep.floor(f'{r} instances', len(seen), floors.get(r, 1))
+    if rep.tier == 'thorough' and 'TP.2' in rules:
+        import irlock, frontend
+        ok, viols, stats, err = irlock.check_class(frontend.REPO, 'src/threading/ThreadPool.cpp', facts, TP, 'm_queueMutex', ['m_queue'],
+                                                   lambda d: d.startswith('tulz::ThreadPool::') or d.startswith('tulz::PooledRunnable::run'))
+        rep.rule('TP.2-IR', 'second reading of TP.2 from LLVM IR (-O0): every address computation of ThreadPool::m_queue executes with m_queueMutex held')
+        if ok is None: rep.inconclusive('TP.2-IR', 'IR cross-check', 'src/threading/ThreadPool.cpp', err)
+        elif ok: rep.ok('TP.2-IR', f'{stats["state_address_computations"]} address computations of m_queue in {stats["functions_touching_state"]} IR functions, all with m_queueMutex held', 'src/threading/ThreadPool.cpp')
+        else:
+            for fnm, ins in viols[:3]:
+                rep.violation('TP.2-IR', f'{fnm}: m_queue address computed without m_queueMutex', 'src/threading/ThreadPool.cpp', ins, key=f'TP.2-IR|{fnm}', fn=fnm)
     rep.count('field_accesses', getattr(a, 'n_access', 0)); rep.count('start_rows', getattr(a, 'n_start_rows', 0))
     rep.count('worker_rows', getattr(a, 'n_worker_rows', 0)); rep.count('start_instantiations', getattr(a, 'n_start_inst', 0))
     rep.assume('tasks terminate; std::thread/mutex/condition_variable behave as specified; one owner thread drives the pool; loops over m_pool / m_queue are evaluated for 0, 1 and 2 elements (the loop bodies are straight-line, so more elements repeat the same events)')
